@@ -85,6 +85,10 @@ oer_open_type_get(const asn_codec_ctx_t *opt_codec_ctx,
         return 0;
     }
 
+    if(!td->op->oer_decoder) {
+        return -1;  /* OER is not defined for this type */
+    }
+
     dr = td->op->oer_decoder(opt_codec_ctx, td, constraints, struct_ptr,
                          (const uint8_t *)bufptr + len_len, container_len);
     if(dr.code == RC_OK) {
